@@ -1,3 +1,36 @@
+/-
+Whole-program forms of C08, C13, C10, C07 for QUIC: the twins of `Props/ExportProps.lean` (TLS over TCP). Theorems about what
+`run()` hands to the writer (`TLX.Export.framesFrom`) for ANY capture item list — TLS, QUIC, DSBs, ignored items interleaved —,
+any key log, options, primitives.
+
+Vocabulary: `quicSess o fk xs` the QUIC session objects of a run in creation order; `qFrames md s` the frames one session
+exports; `quicFrames o fk xs` the QUIC part session by session; `framesFrom_ok_quic`:
+`framesFrom = (tlsFrames …).flatten ++ (quicFrames …).flatten`.
+
+1. C08  `export_cut_prefix_quic_items`, `export_cut_prefix_quic` (`framesFrom` level): cut the capture after `n` items; session
+        by session in creation order the cut export stands in `CutRel` to the full export — all frames but the last unchanged,
+        the last one at its place with the same time and addresses and a payload PREFIX (the builder concatenates the data of
+        consecutive frames with equal (capture time, direction)); later sessions absent. It is a plain prefix under `SplitOk`
+        (`export_cut_prefix_quic_items_split`; `build_append_of_split`): the last exported frame before the cut and the first
+        one after it differ in (time, direction). `CutRel` cannot be strengthened: `Ex.cut_not_prefix_witness`, replayed on the
+        real tool (`harness/export_props_quic_replay.py`). NO key-material hypothesis (TLS needs `hkeys`): the loop hands
+        `handle_quic_packet` the key log as it is when the datagram is read (`quicView_take_prefix`), `build_output` reads none.
+        Ingredients: the session list only grows (`quicRun_prefix_ext`), `handle_packet` only appends to `output_buffer` and
+        leaves the addressing fields alone (`feed_keeps`, via `C02Capstone3.handleDatagram_wo`), `build_append_ext`.
+2. C13  `export_meta_only_adds_quic_items`: with / without `-a` the same sessions (same objects up to the stored flag:
+        `quicSess_meta`), both exports `build` of the same frame list, the groups without `-a` = the groups with `-a`
+        restricted to STREAM data and regrouped (`C02Out.meta_regroup`), same STREAM bytes in the same order.
+3. C10  `export_ports_quic_items`: client endpoint unchanged, server port original / mapped / 8080; roles by `rolesOf` on the
+        session's first datagram. The main loop classifies UDP by the QUIC header bits of the payload, NOT by port
+        (`mem_quicView`): a flow none of whose ports is a server port still gets a session, the DESTINATION of its first
+        datagram is the server (`Ex.ports_view`).
+4. C07  `export_time_and_ends_quic_items`: every exported frame carries the IP version and MAC / IP ends of the session's
+        first datagram and the capture time of a datagram the loop gave to this session (`Routed`) — `qOk_all`,
+        `feed_added` (from `extract_pkts_ts`, `stepPkt_added`, `handleDatagram_added`: whatever is appended to `output_buffer`
+        while a datagram is handled is stamped with that datagram's time).
+Instances (`Props/ExportPropsQuicEx.lean`): the whole pipeline evaluated by the kernel on a concrete capture.
+Core Lean only.
+-/
 import TLX.Props.ExportProps
 import TLX.Props.C02Capstone3
 import TLX.Props.C18
